@@ -1,5 +1,5 @@
 (* M1 — correspondence: one observation of the real compiler + machine, and its comparison with the model. *)
-From FL Require Export Numscript.Run.
+From FL Require Export Numscript.Run Numscript.Sem.
 Open Scope Z_scope.
 
 Inductive obs_run := ODone (r : result) | OErr (e : eclass) | OPanic.
@@ -105,6 +105,24 @@ Definition n_sort (l : list N) : list N := fold_right n_insert [] l.
 Definition oacc_eqb (a b : option account) : bool :=
   match a, b with Some x, Some y => N.eqb x y | None, None => true | _, _ => false end.
 
+(* the source semantics run on what the pipeline resolved: variable values by name, machine balance table *)
+Definition venv_of (p : program) (vals : list value) : venv :=
+  fold_right (fun nv acc => match nth_error vals (snd nv) with Some v => (fst nv, v) :: acc | None => acc end) [] (p_vars p).
+
+Definition sem_pipeline (sc : script) (p : program) (vars : option (list (N * value))) (s : store) (extra : list str)
+  : outcome result :=
+  match vars with
+  | None => Err EInvalidVars
+  | Some vs =>
+      do r <- resolve_resources (p_res p) vs s {| r_vals := []; r_involved := []; r_pending := [] |};
+      do vals <- fill_pending (r_pending r) s (r_vals r);
+      do b <- resolve_balances (p_needed p) vals s [];
+      match sem sc (venv_of p vals) b extra with
+      | SOk res => Done res
+      | SErr e => Err e
+      end
+  end.
+
 Definition check_case (c : ncase) : bool :=
   match compile (n_script c), n_prog c with
   | None, None => true
@@ -116,7 +134,8 @@ Definition check_case (c : ncase) : bool :=
       | Done ro =>
           list_eqb N.eqb (n_sort (ro_involved ro)) (ob_involved (n_obs c)) &&
           list_eqb oacc_eqb (ro_sources ro) (ob_sources (n_obs c)) &&
-          run_eqb (ro_result ro) (ob_run (n_obs c))
+          run_eqb (ro_result ro) (ob_run (n_obs c)) &&
+          run_eqb (sem_pipeline (n_script c) p (n_vars c) (n_store c) (n_extra c)) (ob_run (n_obs c))
       end
   | _, _ => false
   end.
@@ -141,7 +160,9 @@ Definition diagnose (c : ncase) : nat :=
            | Done ro =>
                if negb (list_eqb N.eqb (n_sort (ro_involved ro)) (ob_involved (n_obs c))) then 6
                else if negb (list_eqb oacc_eqb (ro_sources ro) (ob_sources (n_obs c))) then 7
-               else if negb (run_eqb (ro_result ro) (ob_run (n_obs c))) then 8 else 0
+               else if negb (run_eqb (ro_result ro) (ob_run (n_obs c))) then 8
+               else if negb (run_eqb (sem_pipeline (n_script c) p (n_vars c) (n_store c) (n_extra c)) (ob_run (n_obs c))) then 10
+               else 0
            | _ => 9
            end
   end%nat.
